@@ -91,6 +91,10 @@ pub const SITES: &[&str] = &[
     // lock points of deadpool-sync (logged when passed = the mutex is acquired right after)
     "sync.interact.lock",
     "sync.drop.lock",
+    // reference count of the SyncWrapper's shared state (cfg-gated Arc shim in deadpool-sync)
+    "sync.arc.post_count",
+    "sync.arc.post_clone",
+    "sync.arc.pre_drop",
     // harness-owned sites (inside closures / callbacks supplied by the harness)
     "harness.closure.begin",
     "harness.closure.mid",
